@@ -195,7 +195,7 @@ pub fn run(ctx: &Ctx) -> i32 {
     }));
     // every two-clause list
     let n = cl.len() as u64;
-    let prefixes: &[&str] = if ctx.tier == Tier::Thorough { &["", "-", "/"] } else { &[""] };
+    let prefixes: &[&str] = &["", "-", "/"];
     for p in prefixes {
         acc = acc.merge(par_cases(n * n, |i, acc| check_list(p, &[&cl[(i / n) as usize], &cl[(i % n) as usize]], acc)));
     }
@@ -265,7 +265,7 @@ pub fn run(ctx: &Ctx) -> i32 {
             level: "model_checking",
             exhaustive: true,
             rule: "octal: every value x spelling x prefix; symbolic: the clause fold is a transition system on the 512 rwx modes: BFS over reference-reachable modes, each reached by a witness clause list confirmed against the real parser, and from every state every one of the 315 clauses is applied through the real parser and compared with chmod's algebra (all state x transition pairs); the emitted comparison for every (check kind, 12-bit mode) is executed by the runtime model on modes differing in each single bit, for three file types; distinct = distinct modes produced".into(),
-            bound: format!("4096 octal values x (3|4 digits) x 3 prefixes; 315 single clauses x 3 prefixes; all 99225 two-clause lists{}; {reach} reachable modes x 315 clauses; 3 check kinds x 4096 modes executed on 16 directed modes x 3 file types{}", if ctx.tier == Tier::Thorough { " under all three prefixes; all 91125 three-clause lists over 45 clauses" } else { "" }, if ctx.tier == Tier::Thorough { "; 192 checks executed on all 4096 modes x 3 types" } else { "" }),
+            bound: format!("4096 octal values x (3|4 digits) x 3 prefixes; 315 single clauses x 3 prefixes; all 99225 two-clause lists{}; {reach} reachable modes x 315 clauses; 3 check kinds x 4096 modes executed on 16 directed modes x 3 file types{}", if ctx.tier == Tier::Thorough { " under all three prefixes; all 91125 three-clause lists over 45 clauses" } else { " under all three prefixes" }, if ctx.tier == Tier::Thorough { "; 192 checks executed on all 4096 modes x 3 types" } else { "" }),
             assumptions: vec![
                 "chmod(1) algebra from mode 0 for the supported clause subset [ugoa]+[+-=][rwx]+".into(),
                 "-perm /000 is excluded (GNU find special-cases it)".into(),
